@@ -219,6 +219,7 @@ theorem parseTree_strTree (o : KeyOracle) : ∀ (t : Tree) (fuel depth : Nat), T
           show parseTree o (f + 1) depth (call nSortedmultiA (decChars thr :: ks.map strKey)) = _
           simp only [parseTree, hd', if_false, hh, leaf_closed, Bool.false_eq_true, takeWhile_call nSortedmultiA _ hp, inner_call, e1, e2, if_true,
             splitArgs_join _ (by simp) hT, parseMultiArgs_str o true true true thr ks hne hk]
+  | ms n => intro fuel depth h; cases h
   | branch l r ihl ihr =>
     intro fuel depth h hf hd
     cases fuel with
